@@ -24,7 +24,9 @@ ProdSeq(ss) == IF ss = <<>> THEN {<<>>} ELSE {<<x>> \o t : x \in Head(ss), t \in
 \* target value of row i
 Scaled(c, i) == RMul(RMul(c.data[i], c.y[i]), c.meta[i])
 B(s, c, i) == IF s.denom[i] = 0 THEN Scaled(c, i) ELSE RMul(Scaled(c, i), Scaled(c, s.denom[i]))
-RowSum(s, x, i) == RSumSet(s.members[i], [k \in s.members[i] |-> x[k]])
+\* members[i] is a sequence: a compartment that a characteristic includes twice (directly and through a nested characteristic) counts twice,
+\* as it does in the characteristic's reported value
+RowSum(s, x, i) == RSumSeq([j \in 1..Len(s.members[i]) |-> x[s.members[i][j]]])
 ExactSolution(s, c, x) == \A i \in 1..NRows(s) : s.used[i] => RowSum(s, x, i) = B(s, c, i)
 SolvableOnGrid(s, c) == \E x \in [1..s.ncomp -> SolGrid] : ExactSolution(s, c, x)
 
